@@ -4,6 +4,7 @@
 
 import {
   sortByKey,
+  stableSort,
   shallowCopy,
   accumulateLengths,
   splitLines,
@@ -119,6 +120,14 @@ export function flattenStringDiff(
   }
   let lineToChar = [0].concat(accumulateLengths(val));
   let flattened: IDiffArrayEntry[] = [];
+  // An insertion before a line goes before a change to that line, in whatever
+  // order the entries were collected (decisions are sorted deeper first)
+  diff = stableSort(diff, function (a, b) {
+    if (a.key !== b.key) {
+      return a.key < b.key ? -1 : 1;
+    }
+    return Number(a.op !== 'addrange') - Number(b.op !== 'addrange');
+  });
   for (let e of diff) {
     // Frist validate op:
     validateStringDiff(val, e, lineToChar);
